@@ -922,7 +922,7 @@ class InstructionCollection:
         self.MovRmReg = make_rm_reg("mov", 0x89, read_op1=False)
 
         self.ShrRm = make_rm("shr", 0xD1, 5)
-        self.ShlRm = make_rm("shl", 0xD1, 5)
+        self.ShlRm = make_rm("shl", 0xD1, 4)
         self.NotRm = make_rm("not", 0xF7, 2)
         self.NegRm = make_rm("neg", 0xF7, 3)
 
